@@ -7,9 +7,9 @@
    STREAMS_BLOCKED step; the loop
    of the `fixes` branch: RESET_STREAM and STOP_SENDING are skipped while the stream is blocked by the
    stream-count limit) on top of the C10 sender.
-   Transport parameters come in two transcriptions: [OParams] is _parse_transport_parameters as it was up to
-   the repair of finding C06-F1 (each present value overwrites the field, streams untouched); [OParamsP] is the
-   repaired function (an absent limit is 0; a value below the one held is PROTOCOL_VIOLATION when 0-RTT was
+   Transport parameters come in two transcriptions: [OParams] is _parse_transport_parameters AS IT IS (each present
+   value overwrites the field, streams untouched; open finding C06-F1); [OParamsP] is the function as the PROPOSED
+   repair docs/C06-fix-1.patch (not applied) would make it (an absent limit is 0; a value below the one held is PROTOCOL_VIOLATION when 0-RTT was
    accepted; when 0-RTT was not accepted every existing stream is put back on the blocked lists until the handshake
    completes, its highest_offset and the connection's credit counter restart from 0).  The tie probes the source and feeds the one that the tree contains.
    No proofs in this file. *)
@@ -324,6 +324,30 @@ Definition fstep (c : conn) (op : fop) : fout * conn :=
       | PRejected => (fst r, reblock (snd r))
       | _ => r
       end
+  end.
+
+(* the stream loop of _write_application over _streams_queue, as a sequence of the calls above (discarding of finished
+   streams is not modelled): per queued stream the STOP_SENDING branch, then RESET_STREAM or (elif) STREAM.
+   [budgets] = the size budget the packet builder offers to the _write_stream_frame call of each visited stream, in
+   visiting order (an input); the list ending early = QuicPacketBuilderStop ends the loop for this packet.
+   NOT executed by the tie (the tie feeds the individual calls); used to state progress for a whole pass. *)
+Definition loop_step (c : conn) (sid ms : Z) : list fout * conn :=
+  let r1 := fstep c (OGetStop sid) in
+  let c1 := snd r1 in
+  let reset_branch := match find_strm sid (c_streams c1) with
+                      | Some t => s_reset_pending (t_send t) && negb (t_blocked t)
+                      | None => false
+                      end in
+  let r2 := if reset_branch then fstep c1 (OGetReset sid) else fstep c1 (OGet sid ms) in
+  ([fst r1; fst r2], snd r2).
+
+Fixpoint stream_loop (c : conn) (q : list Z) (budgets : list Z) : list (Z * list fout) * conn :=
+  match q, budgets with
+  | sid :: q', ms :: b' =>
+      let r := loop_step c sid ms in
+      let rr := stream_loop (snd r) q' b' in
+      ((sid, fst r) :: fst rr, snd rr)
+  | _, _ => ([], c)
   end.
 
 Definition frun (c : conn) (ops : list fop) : conn := fold_left (fun c op => snd (fstep c op)) ops c.
